@@ -85,6 +85,14 @@ def _apply_op(name, ver, ins):
         return op.and_(*ins)
     if name == "or":
         return op.or_(*ins)
+    if name == "pos":  # scalar bool: is the first element positive?
+        (x,) = ins
+        first = op.gather(x, op.constant(value=np.array(0, np.int64)))
+        return op.greater(first, op.constant(value=np.array(0, F32)))
+    if name == "binarize":  # an operator of another standard domain (ai.onnx.ml)
+        import spox.opset.ai.onnx.ml.v3 as ml
+
+        return ml.binarizer(ins[0], threshold=0.5)
     if name == "rmax":  # x + max(x): ReduceMax changed between 17 and 18 (axes attribute -> input)
         (x,) = ins
         if ver == 17:
@@ -236,7 +244,7 @@ class Realiser:
             if k == "op":
                 _, name, ver, refs = st
                 ins = [env[r][0] for r in refs]
-                t = "b" if name in BOOL1 + BOOL2 else "f"
+                t = "b" if name in BOOL1 + BOOL2 + ["pos"] else "f"
                 env.append((_apply_op(name, ver, ins), t))
             elif k == "const":
                 env.append((_opmod(st[2] if len(st) > 2 else 17).constant(value=np.array(st[1], F32)), "f"))
@@ -352,6 +360,10 @@ def _np_op(name, ins):
         return np.logical_and(*ins)
     if name == "or":
         return np.logical_or(*ins)
+    if name == "pos":
+        return np.array(bool(np.asarray(ins[0]).reshape(-1)[0] > 0))
+    if name == "binarize":
+        return (np.asarray(ins[0]) > F32(0.5)).astype(F32)
     if name == "rmax":
         return ins[0] + np.max(ins[0], keepdims=True)
     raise ValueError(name)
@@ -533,6 +545,21 @@ def live_calls(spec):
 
     walk(spec["stmts"], len(spec["args"]), [r for _, r in spec["outputs"]])
     return found
+
+
+def keys_with_differing_bodies(spec):
+    """Keys (domain, name) whose live uses do not all have the same body *text* (funcspec body, arity,
+    call-site variant; for dtype-generic functions: a dtype-dependent body used at two dtypes).
+    Only for these may the build raise 'two different definitions'."""
+    import json as _json
+
+    by: dict = {}
+    for fi, variant in dict.fromkeys(live_calls(spec)):
+        fs = spec["funcs"][fi]
+        by.setdefault((fs["domain"], fs["name"]), set()).add(
+            _json.dumps([fs["body"], fs["nin"], fs["nout"], variant], sort_keys=True))
+    out = [k for k, v in by.items() if len(v) > 1]
+    return out + generic_bodies_differ(spec)
 
 
 def distinguishable_bodies(spec, rng_seed=0):
@@ -857,7 +884,8 @@ class Gen:
         self.rng = rng
         self.feat = {"if": True, "loop": True, "inline": True, "func": True, "mixed": True,
                      "init": True, "unused": True, "func_in_body": True, "nested_func": True,
-                     "vary": False, "rmax": True, "collide": False, "custom": False, "generic": False}
+                     "vary": False, "rmax": True, "collide": False, "custom": False, "generic": False, "func_if": False,
+                     "ml": False}
         if feat:
             self.feat.update(feat)
         self.funcs: list[dict] = []
@@ -1012,8 +1040,48 @@ class Gen:
                 stmts.extend(self.gen_stmts(types, 1, 3, in_func=True))
         self.feat.clear()
         self.feat.update(saved)
+        if saved.get("func_if") and rng.random() < 0.45:
+            # control flow INSIDE the function body; the branches use things that occur nowhere else in the
+            # body: an operator of another domain (ai.onnx.ml), a nested function called only there
+            stmts.append(["op", "pos", 17, [self.pick(types, "f")]])
+            types.append("b")
+            cond = len(types) - 1
+
+            def branch(special):
+                btypes = list(types)
+                bst = []
+                src = self.pick(btypes, "f")
+                if special == "ml":
+                    bst.append(["op", "binarize", 17, [src]])
+                    btypes.append("f")
+                elif special == "call":
+                    cands = [i for i, f in enumerate(self.funcs) if f is not None and f["nin"] == 1]
+                    fi = rng.choice(cands) if cands and rng.random() < 0.4 else None
+                    if fi is None:
+                        keep = dict(self.feat)
+                        self.feat.update({"func": False, "nested_func": False, "func_if": False})
+                        fi = self.gen_func(0, force_new=True)  # a nested function called only in this branch
+                        self.feat.clear()
+                        self.feat.update(keep)
+                    fs_ = self.funcs[fi]
+                    bst.append(["call", fi, [src] * fs_["nin"]])
+                    btypes.extend(["f"] * fs_["nout"])
+                else:
+                    bst.append(["op", rng.choice(["neg", "abs", "relu"]), self.ver() if saved.get("mixed") else 17, [src]])
+                    btypes.append("f")
+                if rng.random() < 0.5:
+                    bst.append(["op", rng.choice(BINARY), 17, [len(btypes) - 1, self.pick(btypes, "f")]])
+                    btypes.append("f")
+                return {"stmts": bst, "outs": [len(btypes) - 1]}
+
+            kinds = ["ml" if saved.get("ml") else "plain", "call", "plain"]
+            tb, eb = branch(rng.choice(kinds)), branch(rng.choice(kinds))
+            stmts.append(["if", cond, tb, eb, 17])
+            types.append("f")
         fsidx = [i for i, t in enumerate(types) if t == "f"]
         outs = [rng.choice(fsidx[nin:] or fsidx) for _ in range(nout)]
+        if stmts and stmts[-1][0] == "if":
+            outs[0] = len(types) - 1  # the If is live
         self.funcs[idx] = {"name": f"fn{idx}", "domain": rng.choice(["spox.function", "dom.a", "dom.b"]),
                            "nin": nin, "nout": nout, "body": {"stmts": stmts, "outs": outs}}
         if self.feat.get("collide") and rng.random() < 0.2:
@@ -1312,8 +1380,8 @@ def shrink(spec, still_fails, budget=150):
                     continue
                 cl = cls[li]
                 st = cl[si]
-                if st[0] in ("const",):
-                    continue
+                if st[0] in ("const",) or (st[0] == "op" and st[1] in BOOL1 + BOOL2 + ["pos"]):
+                    continue  # (bool-valued statements stay: constants are float32 and would break typing)
                 n = _nres(cand, st)
                 cl[si:si + 1] = [["const", [1.0, 2.0]] for _ in range(n)]
                 # positions are preserved only if the statement had exactly n results -> n statements
